@@ -1139,3 +1139,16 @@ def oracle(lines, impl):
                 fail(i, key, "|inf_norm - max_i sum_j |x_ij|| = %.3e exceeds gamma_(c-1) * value (c=%d)" % (float(Fraction(err, SC)), c))
             continue
     return fails
+
+# --- deep theorems (second pass; modules written in their own files, wired here by the lead)
+PROOF_MODULES = PROOF_MODULES + ['Compute.Props.Rounding']
+REQUIRED_THEOREMS = REQUIRED_THEOREMS + ['Cv.Rounding.sum8_error', 'Cv.Rounding.sum8_error_pred', 'Cv.Rounding.dot8_error', 'Cv.Rounding.prodL_error', 'Cv.FlModel.higham_lemma_3_1']
+_np = list(NOT_PROVED)
+_np[0] = 'rounding bounds for norm, inf_norm, logsumexp (need a rounded Transc instance) are checked by the oracle only; for sum, dot and prod the worst-case bounds ARE proved in the standard model of floating-point arithmetic (Props/Rounding: |sum8 x - sum x| <= gamma_(n-1) sum|x|, dot: gamma_n, prod: gamma_n relative), the trusted link being that IEEE binary64 round-to-nearest satisfies fl(a op b) = (a op b)(1+d), |d| <= 2^-53, barring overflow/underflow'
+NOT_PROVED = [x for x in _np if x is not None]
+
+# --- deep theorems (2: module of higham_lemma_3_1)
+PROOF_MODULES = PROOF_MODULES + ['Compute.Lemmas.FlModel']
+REQUIRED_THEOREMS = REQUIRED_THEOREMS + []
+_np = list(NOT_PROVED)
+NOT_PROVED = [x for x in _np if x is not None]
